@@ -236,6 +236,15 @@ OPT_INVALID = [
     {"number_of_processors": 0}, {"curvature_type": "flat"},
     {"psi_interpolation_method": "cubic-ish"}, {"xpoint_poloidal_spacing_length": -0.1},
     {"finecontour_overdamping_factor": 1.5}, {"orthogonal": "maybe"},
+    # not-a-number, wrong sign, wrong type: each is refused by the option's own
+    # value_type / check_all on the unchanged tree
+    {"refine_atol": float("nan")}, {"xpoint_poloidal_spacing_length": float("nan")},
+    {"finecontour_atol": float("nan")}, {"geometry_rtol": float("nan")},
+    {"psi_spacing_separatrix_multiplier": float("nan")},
+    {"target_all_poloidal_spacing_length": float("nan")}, {"orthogonal": 1},
+    {"refine_timeout": -1.0}, {"finecontour_Nfine": 0},
+    {"follow_perpendicular_rtol": -1e-8}, {"xpoint_offset": 1.5},
+    {"number_of_processors": -2}, {"refine_methods": ["newton", "nonsense"]},
 ]
 # keys that no options factory defines and that the scripts do not read themselves
 # (grid_file / plot_* ARE read by hypnotoad-geqdsk and are therefore not "unknown")
@@ -383,7 +392,9 @@ def make_case(rng, key, kind=None, entry=None, geom=None):
         bad = dict(rng.choice(OPT_INVALID))
         if entry in ("circular", "api-circ"):
             bad = {k: v for k, v in bad.items()
-                   if k not in ("nx_core", "psinorm_core", "xpoint_poloidal_spacing_length")} \
+                   if k not in ("nx_core", "psinorm_core", "xpoint_poloidal_spacing_length",
+                                "psi_spacing_separatrix_multiplier",
+                                "target_all_poloidal_spacing_length", "xpoint_offset")} \
                 or {"nx": -1}
         f.update({"extra": bad})
     elif kind == "opt_inconsistent":
